@@ -151,7 +151,11 @@ def make_runloop(K, awaits, starts=2, reach=False):
     return fn
 
 
-BEHAVIOURS = ["finish", "raise", "forever", "slow_cancel", "handover", "cleanup_on_cancel"]
+BEHAVIOURS = ["finish", "raise", "raise_base", "forever", "slow_cancel", "handover", "cleanup_on_cancel"]
+
+
+class TaskBaseError(BaseException):
+    """A task error that is neither an Exception nor a CancelledError (the quantifier's 'raise BaseException' outcome)."""
 
 
 def make_service(ntasks, allow_cleanup=False, reach=False):
@@ -188,6 +192,9 @@ def make_service(ntasks, allow_cleanup=False, reach=False):
                     elif b == "raise":
                         await asyncio.sleep(1.0)
                         raise RuntimeError(f"task {i} failed")
+                    elif b == "raise_base":
+                        await asyncio.sleep(1.0)
+                        raise TaskBaseError(f"task {i} failed with a BaseException")
                     elif b == "handover":
                         await asyncio.sleep(1.0)
                         self._spawn()
@@ -348,7 +355,7 @@ def instances(tier):
         I("reach:runloop", "make_runloop", (2, 1, 2, True), "reachability twin", budget_s=60, validate_every=0),
         I("runloop-K3-await1", "make_runloop", (3, 1), "<= 3 runs per start, 1 await point, the same actor started twice", budget_s=200, validate_every=50),
         I("runloop-K2-await2", "make_runloop", (2, 2), "<= 2 runs per start, 2 await points, 2 starts", budget_s=200, validate_every=50),
-        I("service-2", "make_service", (2, True), "2 tasks x 6 behaviours, 4 operations, 2 instants", budget_s=200, validate_every=20),
+        I("service-2", "make_service", (2, True), "2 tasks x 7 behaviours (incl. a BaseException that is neither Exception nor CancelledError), 4 operations, 2 instants", budget_s=200, validate_every=20),
         I("run-2", "make_run", (), "run() with 2 actors", budget_s=100, validate_every=10),
         I("actor-start-while-stopping", "make_actor_restart", (), "start() while the previous run is being cancelled / cleaning up", budget_s=100, validate_every=5),
     ]
